@@ -1,6 +1,7 @@
 package main
 
 import (
+	"sort"
 	"encoding/json"
 	"fmt"
 	"strings"
@@ -376,6 +377,56 @@ func appendMirror(o *Oracle, oc *Outcome, s *solver.Solver, cl *solver.Clause, o
 	oc.Tag("append-mirror:" + strings.SplitN(want, " ", 2)[0])
 }
 
+// canonConstr: a constraint up to the order of its terms (watch maintenance swaps terms, nothing else
+// may change a constraint once the solver holds it).
+func canonConstr(c solver.PBConstr) string {
+	ts := make([][2]int, len(c.Lits))
+	for i, l := range c.Lits {
+		w := 1
+		if c.Weights != nil {
+			w = c.Weights[i]
+		}
+		ts[i] = [2]int{l, w}
+	}
+	sort.Slice(ts, func(i, j int) bool { return ts[i][0] < ts[j][0] || (ts[i][0] == ts[j][0] && ts[i][1] < ts[j][1]) })
+	return fmt.Sprint(c.AtLeast, ts)
+}
+
+// stableWatch checks that the problem constraints a solver holds stay what they were when they were
+// attached: the k-th constraint, read again later (after further AppendClause calls, after solving),
+// has the same terms and degree. Every theorem about a run (cdcl_*, minimizeS_optimal, enum_exact)
+// is about a fixed constraint list that only grows.
+type stableWatch struct {
+	s     *solver.Solver
+	seen  []string
+	entry string
+	bad   bool
+}
+
+func (w *stableWatch) check(oc *Outcome, when string) {
+	if w.bad {
+		return
+	}
+	orig, _ := w.s.VerifConstraints()
+	oc.Corr++
+	for i, c := range orig {
+		k := canonConstr(c)
+		if i < len(w.seen) {
+			if w.seen[i] != k {
+				w.bad = true
+				oc.Fail("corr", "constraints-stable", w.entry, "%s: problem constraint %d of the solver was %s when attached and reads %s now", when, i, w.seen[i], k)
+				return
+			}
+		} else {
+			w.seen = append(w.seen, k)
+		}
+	}
+	if len(orig) < len(w.seen) {
+		w.bad = true
+		oc.Fail("corr", "constraints-stable", w.entry, "%s: the solver held %d problem constraints and holds %d now", when, len(w.seen), len(orig))
+	}
+}
+
 // mirrorAppends ties every AppendClause call made on s — by the caller or by the library itself
 // (bound constraints of Optimal / Minimize, blocking clauses of Enumerate / CountModels) — to the
 // Lean mirror of its prologue, exactly as appendMirror does for one call; the returned function
@@ -387,6 +438,8 @@ func mirrorAppends(o *Oracle, oc *Outcome, s *solver.Solver, entry string) func(
 	var facts0 []int
 	have := false
 	n := 0
+	sw := &stableWatch{s: s, entry: entry}
+	sw.check(oc, "before the call")
 	s.VerifSetAppendHook(func(top []int, c solver.PBConstr, pb bool) {
 		pre, have = appendObs{append([]int{}, top...), c, pb}, true
 		st0, nb0, _, _, facts0 = s.VerifAppendState()
@@ -397,6 +450,9 @@ func mirrorAppends(o *Oracle, oc *Outcome, s *solver.Solver, entry string) func(
 		}
 		have = false
 		n++
+		if n <= 40 {
+			sw.check(oc, fmt.Sprintf("after AppendClause %d", n))
+		}
 		if st0 == solver.Unsat || n > 12 || len(oc.Failures) > 0 {
 			return
 		}
@@ -433,5 +489,6 @@ func mirrorAppends(o *Oracle, oc *Outcome, s *solver.Solver, entry string) func(
 	return func() {
 		s.VerifSetAppendHook(nil)
 		s.VerifSetAppendedHook(nil)
+		sw.check(oc, "after the call")
 	}
 }
